@@ -990,7 +990,7 @@ func (P *Prog) checkPrecedence(r *Result) {
 		fmterF := structField(R.ExecCtx, "Fmter")
 		errorsF := structField(R.ExecCtx, "Errors")
 		msgF := structField(R.ZogIssue, "Message")
-		spec := &pathSpec{name: "execution-formatter"}
+		spec := &pathSpec{name: "execution-formatter", inlineAll: true}
 		spec.cond = func(iff *ssa.If) (string, string, string) {
 			bo, ok := cv(iff.Cond).(*ssa.BinOp)
 			if !ok || (bo.Op != token.EQL && bo.Op != token.NEQ) {
